@@ -17,7 +17,7 @@ def observe(tier):
     if tier == "thorough":
         # all documents two mutations away (above) + one in 40 (by content hash and seed) of those three mutations away
         g3 = C.TlcGen("OdmlValidationGen.tla", CFG["thorough"], "validation3", workers=8)
-        n3, f3 = par.replay_stream(C.thin(dedupe(g3.chunks(200)), 40), "harness.validation", os.path.join(d, "R3"), shard=6000)
+        n3, f3 = par.replay_stream(dedupe(C.thin(g3.chunks(200), 40)), "harness.validation", os.path.join(d, "R3"), shard=6000)
         files += f3
         records["R3 (1 in 40)"] = n3
         tlc.append({"cfg": CFG["thorough"], "cmd": g3.describe(), "states": g3.stats["distinct"], "transitions": g3.n_lines, "wall_s": round(g3.wall, 1)})
